@@ -183,12 +183,16 @@ class HistogramCollection(Container[Histogram1D], ObjectWithBinning):
             )
             for item in a_dict["histograms"]
         )
-        return HistogramCollection(*histograms)
+        return HistogramCollection(
+            *histograms, name=a_dict.get("name"), title=a_dict.get("title")
+        )
 
     def to_dict(self) -> Dict[str, Any]:
         return {
             "histogram_type": "histogram_collection",
             "histograms": [h.to_dict() for h in self.histograms],
+            "name": self.name,
+            "title": self.title,
         }
 
     def to_json(self, path: Optional[str] = None, **kwargs) -> str:
